@@ -593,6 +593,10 @@ class Engine(object):
             return self.lift_global(getattr(self.module, name), name)
         if hasattr(builtins, name):
             return VBuiltin(name)
+        if self.spec_mode:
+            # a specification that names a variable the code has not bound on this path says nothing about this path; evaluating
+            # it over an arbitrary value would turn a harmless rewrite (an early return) into a refutation
+            raise OutOfSubset("the specification mentions `%s`, which is not bound on this path: the contract does not attach" % name)
         raise Unsupported("unbound name %s" % name)
 
     spec_mode = False
@@ -810,6 +814,14 @@ class Engine(object):
             raise Unsupported("node has no field %s" % attr)
         if isinstance(v, VPy) and hasattr(v.obj, attr):
             return self.lift_global(getattr(v.obj, attr), attr)
+        if isinstance(v, VPyFunc) and isinstance(getattr(v, "obj", None), type) and issubclass(v.obj, __import__("enum").Enum) and attr in v.obj.__members__:
+            # a member of an Enum declared in the real module: one named constant per member, members pairwise distinct, not None
+            members = list(v.obj.__members__)
+            consts = {m: z3.Const("enum:%s.%s" % (v.obj.__name__, m), Opaque) for m in members}
+            if len(members) > 1:
+                st.assume(z3.Distinct(*consts.values()))
+            st.assume(z3.Not(opaque_is_none(consts[attr])))
+            return VOpaque(consts[attr], note="%s.%s" % (v.obj.__name__, attr))
         if isinstance(v, VOpaque):
             # access path on an uninterpreted object: the same path denotes the same object until it is stored to
             path = (v.path + "." + attr) if getattr(v, "path", None) else None
@@ -1353,6 +1365,11 @@ class Engine(object):
         if isinstance(fv, VBuiltin):
             return self.call_builtin(fv.name, args, kwargs, st, e)
         if isinstance(fv, VPyFunc):
+            import operator as _op
+
+            if getattr(fv, "obj", None) is _op.contains and len(args) == 2 and not kwargs and isinstance(args[0], VStr) and isinstance(args[1], VStr):
+                # operator.contains(a, b) on two strings: b in a
+                return [(st, VBool(z3.Contains(args[0].z, args[1].z)))]
             for a in list(args) + list(kwargs.values()):
                 if isinstance(a, VRef):
                     raise Unsupported("mutable object passed to uncontracted %s" % fv.qual)
